@@ -29,7 +29,7 @@ use std::time::{Duration, Instant};
 use verif_harness::searchkit::*;
 use verif_harness::*;
 
-const WATCHDOG_MS: u64 = 3000;
+const WATCHDOG_MS: u64 = 1500;
 
 // ------------------------------------------------------------------------------------- termination models
 
@@ -128,7 +128,18 @@ struct Obs {
 fn obs_status(s: &str, trace: Vec<(usize, u64)>) -> Obs {
     Obs { status: s.into(), msg: String::new(), iters: 0, trees: vec![], routes: vec![], digest: 0, trace }
 }
-fn obs_of(r: Result<SearchAlgorithmResult, SearchError>, trace: Vec<(usize, u64)>) -> Obs {
+/// `subsearch_only`: keep only what the sub-searches determine (status, trees with all their costs and states).  The
+/// drivers' own post-processing iterates over HashMaps (single-via's intersection queue), so among equal-cost
+/// candidates the routes' split point -- and with it their recomputed costs -- and the driver's own iteration count
+/// vary from run to run even WITHOUT any limit; that is not C10's subject.
+fn obs_of(r: Result<SearchAlgorithmResult, SearchError>, trace: Vec<(usize, u64)>, subsearch_only: bool) -> Obs {
+    let r = r.map(|mut res| {
+        if subsearch_only {
+            res.routes = vec![];
+            res.iterations = 0;
+        }
+        res
+    });
     match r {
         Err(SearchError::TerminationModelFailure { source: TerminationModelError::QueryTerminated(m) }) => {
             Obs { msg: m, ..obs_status("terminated", trace) }
@@ -200,15 +211,25 @@ fn coq_obs(o: &Obs) -> String {
     )
 }
 
+/// an entry's observation as a Gallina term; a result that repeats the unlimited one is written as a reference to it
+/// (`u` is bound by the case term) with its own trace -- the comparison itself is made in Coq
+fn coq_obs_rel(unl: &Obs, o: &Obs) -> String {
+    if same_result(o, unl) {
+        format!("(TR.with_trace u {})", coq_list(&o.trace, |(z, i)| format!("({}, {})", z, i)))
+    } else {
+        coq_obs(o)
+    }
+}
+
 /// run `job` on this thread with the clock script installed and the test counters recorded (hook H2)
-fn observe(script: &[u64], job: impl FnOnce() -> Result<SearchAlgorithmResult, SearchError> + std::panic::UnwindSafe) -> Obs {
+fn observe(script: &[u64], subsearch_only: bool, job: impl FnOnce() -> Result<SearchAlgorithmResult, SearchError> + std::panic::UnwindSafe) -> Obs {
     verif_clock::set_clock_script(Some(script.iter().map(|n| Duration::from_nanos(*n)).collect()));
     verif_clock::start_test_trace();
     let r = catch(job);
     let trace = verif_clock::take_test_trace();
     verif_clock::set_clock_script(None);
     match r {
-        Ok(r) => obs_of(r, trace),
+        Ok(r) => obs_of(r, trace, subsearch_only),
         Err(_) => obs_status("Panic", trace),
     }
 }
@@ -216,7 +237,7 @@ fn observe(script: &[u64], job: impl FnOnce() -> Result<SearchAlgorithmResult, S
 fn observe_watchdog(script: Vec<u64>, job: impl FnOnce() -> Result<SearchAlgorithmResult, SearchError> + std::panic::UnwindSafe + Send + 'static) -> Obs {
     let (tx, rx) = std::sync::mpsc::channel();
     std::thread::spawn(move || {
-        let o = observe(&script, job);
+        let o = observe(&script, true, job);
         let _ = tx.send(o);
     });
     match rx.recv_timeout(Duration::from_millis(WATCHDOG_MS)) {
@@ -227,7 +248,7 @@ fn observe_watchdog(script: Vec<u64>, job: impl FnOnce() -> Result<SearchAlgorit
 
 fn run_plain(w: &World, q: &Query, e: &Entry) -> Obs {
     let (w2, q2, t2) = (w.clone(), q.clone(), e.t.clone());
-    observe(&e.script, move || {
+    observe(&e.script, false, move || {
         let mut si = build_instance(&w2);
         si.termination_model = Arc::new(to_tm(&t2));
         let alg = search_algorithm(&q2.alg);
@@ -404,15 +425,15 @@ const HEADER10: &str = "From Coq Require Import ZArith NArith QArith List String
 fn add_limits_case(st: &mut Stream, family: &str, w: &World, q: &Query, entries: Option<Vec<Entry>>, rng: &mut Rng) {
     let id = st.next_id();
     let unl = run_plain(w, q, &unlimited());
-    let entries = entries.unwrap_or_else(|| gen_sweep(rng, max_seg_len(&unl.trace), max_size(&unl.trace), 26));
+    let entries = entries.unwrap_or_else(|| gen_sweep(rng, max_seg_len(&unl.trace), max_size(&unl.trace), 18));
     let es: Vec<(Entry, Obs)> = entries.iter().map(|e| (e.clone(), run_plain(w, q, e))).collect();
     let wq = format!("{} {}", coq_world(w, NumKind::F), coq_query(q, NumKind::F));
     let terms = vec![
         format!("TR.line_M FN {} {}%Z {} {}", default_fuel(w), id, wq, coq_list(&entries, coq_entry)),
-        format!("TR.line_S FN {}%Z {} {} {}", id, wq, coq_obs(&unl), coq_list(&es, |(e, o)| format!("({}, {})", coq_entry(e), coq_obs(o)))),
+        format!("let u := {} in TR.line_S FN {}%Z {} u {}", coq_obs(&unl), id, wq, coq_list(&es, |(e, o)| format!("({}, {})", coq_entry(e), coq_obs_rel(&unl, o)))),
     ];
     let line = format!("I {} {}", id, show_case(true, &unl, &es));
-    let desc = json!({"id": id, "family": family, "world": world_to_json(w), "query": query_to_json(q),
+    let desc = json!({"id": id, "stream": "limits", "family": family, "world": world_to_json(w), "query": query_to_json(q),
                       "entries": entries.iter().map(entry_to_json).collect::<Vec<_>>(),
                       "unlimited": show_obs_full(&unl).chars().take(160).collect::<String>()});
     st.count(&format!("family:{}", family));
@@ -459,6 +480,21 @@ fn fixed_worlds() -> Vec<(String, World, Query)> {
     out
 }
 
+/// the best of three random vertices by the number of vertices reachable in the search direction
+fn pick_source(rng: &mut Rng, w: &World, dir: Dir) -> (usize, Vec<bool>) {
+    let mut best: Option<(usize, Vec<bool>, usize)> = None;
+    for _ in 0..3 {
+        let v = rng.below(w.n as u64) as usize;
+        let reach = reachable(w, dir, v);
+        let k = reach.iter().filter(|b| **b).count();
+        if best.as_ref().map_or(true, |b| k > b.2) {
+            best = Some((v, reach, k));
+        }
+    }
+    let b = best.unwrap();
+    (b.0, b.1)
+}
+
 fn stream_limits(a: &Args) {
     let mut st = Stream::new(&a.out, "limits", HEADER10, a.shards);
     if let Some(p) = &a.replay {
@@ -483,10 +519,22 @@ fn stream_limits(a: &Args) {
         let fam = if r.chance(3, 4) { CostFamily::TieFree } else { CostFamily::TieRich };
         let (mut w, _flags) = gen_world(&mut r, fam);
         let (mut q, _hk) = gen_query(&mut r, &mut w);
-        // mostly searches with a destination that exists
-        if q.target.is_none() && r.chance(1, 2) {
-            let dom = if q.orient == Orient::Vertex { w.n } else { w.edges.len() };
-            q.target = Some(r.below(dom as u64) as usize);
+        if q.orient == Orient::Vertex {
+            // long searches: start where much is reachable, aim at a reachable vertex (or at none: explore everything)
+            let (src, reach) = pick_source(&mut r, &w, q.dir);
+            q.source = src;
+            q.target = match r.below(20) {
+                0..=4 => None,
+                5..=16 => {
+                    let cands: Vec<usize> = (0..w.n).filter(|v| reach[*v] && *v != src).collect();
+                    if cands.is_empty() { Some((src + 1) % w.n) } else { Some(*r.pick(&cands)) }
+                }
+                _ => Some(r.below(w.n as u64) as usize),
+            };
+            let kind = *r.pick(&[HKind::Zero, HKind::Exact, HKind::Half, HKind::Admissible, HKind::Wild]);
+            gen_heuristic(&mut r, &mut w, q.dir, q.target, kind);
+        } else if q.target.is_none() && r.chance(1, 2) {
+            q.target = Some(r.below(w.edges.len() as u64) as usize);
         }
         let family = match fam {
             CostFamily::TieFree => "random_tie_free",
@@ -507,9 +555,9 @@ fn add_ksp_case(st: &mut Stream, family: &str, w: &World, q: &Query, ksp: &Ksp, 
         return false;
     }
     let id = st.next_id();
-    let entries = entries.unwrap_or_else(|| gen_sweep(rng, max_seg_len(&unl.trace), max_size(&unl.trace), 12));
+    let entries = entries.unwrap_or_else(|| gen_sweep(rng, max_seg_len(&unl.trace), max_size(&unl.trace), 10));
     let es: Vec<(Entry, Obs)> = entries.iter().map(|e| (e.clone(), run_ksp(w, q, ksp, e))).collect();
-    let obs_terms = format!("{} {}", coq_obs(&unl), coq_list(&es, |(e, o)| format!("({}, {})", coq_entry(e), coq_obs(o))));
+    let obs_terms = format!("u {}", coq_list(&es, |(e, o)| format!("({}, {})", coq_entry(e), coq_obs_rel(&unl, o))));
     let m = match ksp {
         Ksp::SingleVia { .. } => format!(
             "TR.line_M_ksp FN {} {}%Z {} {} {} {} {}",
@@ -523,9 +571,9 @@ fn add_ksp_case(st: &mut Stream, family: &str, w: &World, q: &Query, ksp: &Ksp, 
         ),
         Ksp::Yens { .. } => format!("Show.line \"M\"%string {}%Z \"NOMODEL\"%string", id),
     };
-    let terms = vec![m, format!("TR.line_S_ksp FN {}%Z {} {}", id, coq_world(w, NumKind::F), obs_terms)];
+    let terms = vec![m, format!("let u := {} in TR.line_S_ksp FN {}%Z {} {}", coq_obs(&unl), id, coq_world(w, NumKind::F), obs_terms)];
     let line = format!("I {} {}", id, show_case(false, &unl, &es));
-    let desc = json!({"id": id, "family": family, "world": world_to_json(w), "query": query_to_json(q),
+    let desc = json!({"id": id, "stream": "ksp", "family": family, "world": world_to_json(w), "query": query_to_json(q),
                       "ksp": match ksp { Ksp::SingleVia { k, cosine } => json!({"single_via": k, "cosine": cosine}), Ksp::Yens { k } => json!({"yens": k}) },
                       "entries": entries.iter().map(entry_to_json).collect::<Vec<_>>(),
                       "unlimited": show_obs_full(&unl).chars().take(160).collect::<String>()});
@@ -599,11 +647,9 @@ fn stream_ksp(a: &Args) {
                 }
             }
         }
-        let s = r.below(w.n as u64) as usize;
-        let mut t = r.below(w.n as u64) as usize;
-        if t == s {
-            t = (t + 1) % w.n;
-        }
+        let (s, reach) = pick_source(&mut r, &w, Dir::Forward);
+        let cands: Vec<usize> = (0..w.n).filter(|v| reach[*v] && *v != s).collect();
+        let t = if cands.is_empty() || r.chance(1, 8) { (s + 1 + r.below(w.n as u64 - 1) as usize) % w.n } else { *r.pick(&cands) };
         let alg = match r.below(3) {
             0 => Alg::Dijkstra,
             1 => Alg::AStar(None),
@@ -693,7 +739,7 @@ fn add_pred_case(st: &mut Stream, family: &str, t: &T, script: &[u64], z: usize,
     if te.starts_with("Err") {
         st.mark_nontrivial(&format!("{:?}{:?}{}{}", t, script, z, i));
     }
-    st.case(terms, vec![line], json!({"id": id, "family": family, "t": t_to_json(t), "text": show_term(t), "script": script, "size": z, "iteration": i}));
+    st.case(terms, vec![line], json!({"id": id, "stream": "pred", "family": family, "t": t_to_json(t), "text": show_term(t), "script": script, "size": z, "iteration": i}));
 }
 
 fn stream_pred(a: &Args) {
@@ -857,7 +903,7 @@ fn add_config_case(st: &mut Stream, family: &str, js: Vec<Value>) {
     st.count(&format!("family:{}", family));
     let line = format!("I {} {}", id, shown.join(" | "));
     let terms = vec![format!("TR.line_build {}%Z {}", id, coq_list(&js, coq_json))];
-    st.case(terms, vec![line], json!({"id": id, "family": family, "configs": js}));
+    st.case(terms, vec![line], json!({"id": id, "stream": "config", "family": family, "configs": js}));
 }
 
 fn stream_config(a: &Args) {
